@@ -338,6 +338,8 @@ func (fx *FnCtx) builtin(st *State, name string, call *ast.CallExpr) []Val {
 				cur.S, cur.T, nc, cur.S, cur.T, el, cur.T, fx.sc.Zero(sl.Elem()), el, cur.T))
 			c := fx.sc.Fresh("appended", cur.S)
 			st.facts = append(st.facts, "(= "+c+" "+t+")")
+			st.facts = append(st.facts, fmt.Sprintf("(forall ((i Int)) (! (= (%s %s i) (ite (= i (len_%s %s)) %s (%s %s i))) :pattern ((%s %s i))))",
+				el, c, cur.S, cur.T, v.T, el, cur.T, el, c))
 			cur = Val{c, cur.S, rt}
 		}
 		return []Val{cur}
@@ -356,7 +358,11 @@ func (fx *FnCtx) builtin(st *State, name string, call *ast.CallExpr) []Val {
 			}
 			fx.safety(st, "make-size", "(and (<= 0 "+n.T+") (<= "+n.T+" "+c.T+"))", call)
 			z := fx.sc.Zero(u.Elem())
-			return []Val{{fmt.Sprintf("(mk_%s ((as const (Array Int %s)) %s) 0 %s %s)", ss, es, z, n.T, c.T), ss, t}}
+			arr := fmt.Sprintf("((as const (Array Int %s)) %s)", es, z)
+			if z != "0" && z != "false" {
+				arr = fx.sc.constArr("(Array Int "+es+")", z)
+			}
+			return []Val{{fmt.Sprintf("(mk_%s %s 0 %s %s)", ss, arr, n.T, c.T), ss, t}}
 		}
 		fx.fail("unsupported make(%v)", t)
 	case "new":
